@@ -145,7 +145,7 @@ pub fn run_c11(out: &mut Out, rng: &mut Rng, tier: Tier) -> String {
     nonconformable_huge(out);
     zero_sized_operand(out);
     // inner dimensions and result sizes beyond small thresholds
-    for (n, k, m) in [(3usize, 70usize, 2usize), (2, 1030, 1), (64, 1, 65), (33, 2, 32)] {
+    for (n, k, m) in [(3usize, 70usize, 2usize), (2, 1030, 1), (64, 1, 65), (33, 2, 32), (200, 1, 200), (3, 11000, 1)] {
         one(out, n, k, k, m, &["multiply", "like", "op_bb"]);
     }
     let s = snapshot();
